@@ -149,6 +149,17 @@ func (env *c02env) build(t *Sexp) *fun.Iterator[int] {
 			sls = append(sls, intsOf(x.List))
 		}
 		return itertool.MergeSliceIterators(fun.SliceIterator(sls))
+	case "jsonlit":
+		// an iterator unmarshalled from JSON text; `null` elements decode to the zero value
+		parts := []string{}
+		for _, x := range a {
+			parts = append(parts, x.Atom)
+		}
+		out := fun.SliceIterator([]int{})
+		if err := out.UnmarshalJSON([]byte("[" + strings.Join(parts, ",") + "]")); err != nil {
+			panic(err)
+		}
+		return out
 	case "jsonrt":
 		data, err := env.build(a[0]).MarshalJSON()
 		if err != nil {
